@@ -76,6 +76,14 @@ func (s *Statement) Evict(reclaimeeTask *pod_info.PodInfo, message string,
 		return fmt.Errorf("node doesn't exist in sesssion: <%s>", reclaimeeTask.NodeName)
 	}
 
+	if reclaimeeTask.Status == pod_status.Releasing {
+		// Already evicted by an earlier operation of this cycle, or terminating anyway: evicting it again would
+		// record a second operation, release its resources a second time and send a second eviction.
+		log.InfraLogger.V(6).Infof("Task <%v/%v> is already releasing, not evicting it again",
+			reclaimeeTask.Namespace, reclaimeeTask.Name)
+		return nil
+	}
+
 	previousStatus := reclaimeeTask.Status
 	previousGpuGroup := reclaimeeTask.GPUGroups
 	previousIsVirtualStatus := reclaimeeTask.IsVirtualStatus
